@@ -260,8 +260,18 @@ def handle (tag : String) (args : List String) (obs : String) : String :=
         -- `rst<N>`: the first N bytes, then the client resets the connection (it never reads: its transcript is empty)
         else if _sched.startsWith "rst" then full.take ((_sched.drop 3).toString.toNat?.getD full.length) else full
       let cfg : Cfg := { smallBodyLen := s, cacheDir := cache != "0", fs := { createFails := cache == "2", writeFails := cache == "3" } }
-      let (c, calls1) := handleConn false C05.simpleUrl cfg (handlerOf reqs) (max 64 (reqs.length + 8))
+      let (c0, calls0) := handleConn false C05.simpleUrl cfg (handlerOf reqs) (max 64 (reqs.length + 8))
         { input := all, inputErr := _sched.startsWith "rst" } []
+      -- A failing disk AND a client that sends less than it declared: two faults in one upload.  The file writes are
+      -- pipelined, so whether the write error surfaces before the stream ends is a matter of timing: `ErrorSavingFile`
+      -- (500) and `Truncated` (400) are both right.  The model offers both; what is compared is the one that was observed.
+      let twoFaults := cache == "3" && reqs.any fun r => (r.framing.startsWith "d" || r.framing.startsWith "f") &&
+        r.body.length < (r.framing.drop 1).toString.toNat?.getD 0
+      let (c1, calls1') := if twoFaults then
+          handleConn false C05.simpleUrl { cfg with fs := {} } (handlerOf reqs) (max 64 (reqs.length + 8)) { input := all } []
+        else (c0, calls0)
+      let useAlt := twoFaults && ((obsGet obs "wire").bind decBytes) == some c1.wire
+      let (c, calls1) := if useAlt then (c1, calls1') else (c0, calls0)
       -- `par3`: three connections send the same bytes; the merged call log is compared sorted
       let calls := calls1
       -- The server closed while client bytes were still unread: the kernel answers with a reset, and a
